@@ -53,3 +53,5 @@ try:
     print("MANIFEST.json valid: %d checks, %d not_applicable" % (len(checks), len(na)))
 except ImportError:
     print("MANIFEST.json written (jsonschema not available): %d checks" % len(checks))
+import subprocess
+subprocess.call(["python3", os.path.join(V, "tools", "mkfindings_md.py")])
